@@ -122,6 +122,22 @@ fn run_vector(s: &Scenario, base: &Path, v: usize, seed: u64) -> Result<VectorRu
     std::fs::write(d.buildpack.join("buildpack.toml"), DescSpec::minimal().emit()).map_err(io)?;
     std::fs::create_dir_all(d.platform.join("env")).map_err(io)?;
     std::fs::write(&d.plan_in, "").map_err(io)?;
+    // identical inputs, different timestamps: the exec.d sources are old in one vector, from the
+    // future in the next (a buildpack unpacked before / after the cache was restored)
+    for i in 0..crate::e1::ops::EXECD_SOURCES {
+        let p = root.join(format!("execd_src/p{i}"));
+        let secs: i64 = match v % 3 {
+            0 => 946_684_800,                // 2000-01-01
+            1 => 4_102_444_800,              // 2100-01-01
+            _ => 1_700_000_000 + i as i64,
+        };
+        let c = std::ffi::CString::new(p.as_os_str().as_bytes()).map_err(|e| e.to_string())?;
+        let times = [libc::timespec { tv_sec: secs, tv_nsec: 0 }, libc::timespec { tv_sec: secs, tv_nsec: 0 }];
+        // SAFETY: valid C string and a two-element timespec array.
+        unsafe {
+            libc::utimensat(libc::AT_FDCWD, c.as_ptr(), times.as_ptr(), 0);
+        }
+    }
     let env = vec![
         ("CNB_BUILDPACK_DIR".to_string(), d.buildpack.display().to_string()),
         ("CNB_TARGET_OS".to_string(), "linux".to_string()),
@@ -367,6 +383,7 @@ pub fn worker(args: &[String]) -> i32 {
                 *sum.faults.entry("readdir_order_vectors".into()).or_insert(0) += s.vectors as u64;
                 *sum.faults.entry("clock_offset_vectors".into()).or_insert(0) += s.vectors as u64 - 1;
                 *sum.faults.entry("relocated_roots".into()).or_insert(0) += s.vectors as u64 - 1;
+                *sum.faults.entry("source_mtime_vectors".into()).or_insert(0) += s.vectors as u64;
                 if o.builds > 1 {
                     sum.probe("multi_build_scenarios");
                 }
